@@ -1,5 +1,8 @@
 import CogentModel.Model.NJ
 import CogentModel.Proofs.NJLemmas
+import CogentModel.Proofs.NJSelect
+import CogentModel.Proofs.NJTips
+import CogentModel.Proofs.TreeSplits
 /-! # C15 — property theorems, part 2: neighbour joining -/
 namespace CogentModel.C15
 open CogentModel.NJ
@@ -92,7 +95,7 @@ theorem nj_realises_additive_partial (D : Nat → Nat → Rat) (n : Nat) (sel : 
    njLoop_labels n sel n _ (star_labels n _) hch⟩
 
 /-- quartet ((0:1,1:2):4,2:2,3:3): tips 0,1 form a cherry with pendant lengths 1 and 2 -/
-def exD : Mat := [[0, 3, 7, 8], [3, 0, 8, 9], [7, 8, 0, 5], [8, 9, 5, 0]]
+def exQuartet : Mat := [[0, 3, 7, 8], [3, 0, 8, 9], [7, 8, 0, 5], [8, 9, 5, 0]]
 
 /-- Per-instance certificate: `njCertified n d` is a computable check (every pair selected by the model's
 `pickPair` is a cherry of the current matrix, the last three nodes satisfy the triangle inequality) that the
@@ -108,34 +111,133 @@ theorem nj_realises_additive_checked (D : Nat → Nat → Rat) (n : Nat) (hn : 3
   unfold nj; rw [if_neg hn2]
   exact nj_realises_additive_partial D n pickPair hDs hDz (njCheck_sound pickPair n _ hc.1) hn (tri3B_sound _ hc.2)
 
-example : njCertified 4 exD = true := by decide +kernel
+example : njCertified 4 exQuartet = true := by decide +kernel
 
 /-- and `nj` (n ≠ 2) is that loop with the model's selection rule followed by `finish` -/
 theorem nj_eq_loop (n : Nat) (hn : n ≠ 2) (d : Mat) : nj n d = finish (njLoop pickPair n (star n d)) := by
   unfold nj; rw [if_neg hn]
 
-example : Cherry exD 4 0 1 1 2 (fun k => if k = 2 then 6 else 7) := by
+example : Cherry exQuartet 4 0 1 1 2 (fun k => if k = 2 then 6 else 7) := by
   refine ⟨by decide, by decide, by decide, by decide, by decide, by decide +kernel, ?_, ?_⟩ <;>
   · intro k hk h0 h1
     have : k = 2 ∨ k = 3 := by omega
     rcases this with rfl | rfl <;> decide +kernel
 
-example : pickPair (star 4 exD) = (0, 1) := by decide +kernel
-example : nj 4 exD = [(4, .bin 1 (.tip 0) 2 (.tip 1)), (3, .tip 3), (2, .tip 2)] := by decide +kernel
-example : Tri3 (njLoop pickPair 4 (star 4 exD)).d := by unfold Tri3; decide +kernel
+example : pickPair (star 4 exQuartet) = (0, 1) := by decide +kernel
+example : nj 4 exQuartet = [(4, .bin 1 (.tip 0) 2 (.tip 1)), (3, .tip 3), (2, .tip 2)] := by decide +kernel
+example : Tri3 (njLoop pickPair 4 (star 4 exQuartet)).d := by unfold Tri3; decide +kernel
 
-/- FULL STATEMENT (not proved): `nj_selects_cherry` (Studier & Keppler 1988; Durbin et al. §7.3)
-   ∀ (d : Mat) (L : Nat), 3 < L → Sym d L → ZeroDiag d L →
-     (d is the path metric of a tree with positive branch lengths on leaves 0..L-1) →
-     ∀ score, let (i, j) := pickPair ⟨L, d, nodes, score⟩;
-       ∃ ai aj e, Cherry d L i j ai aj e
-   (every off-diagonal minimiser of Q(a,b) = d(a,b) − (r_a + r_b)/(L−2) is a pair of neighbours).
-   With it the hypothesis `hch` of `nj_realises_additive_partial` is discharged for `sel = pickPair` by
-   induction (`nj_reduced_additive` keeps the matrix a tree metric) and NJ returns the generating tree for every
-   additive matrix.  Not proved here: the argument needs a formal tree-metric type and the counting
-   inequality over the subtrees hanging off the i–j path.  Until then the conclusion is CHECKED PER INSTANCE on
-   the real implementation by harness/c15.py (`_JoinRecorder`: every join of nj() on an additive matrix of a
-   binary generating tree is a split of that tree), and the final output is compared with the generating
-   tree. -/
+/-! ### Studier–Keppler and the full consistency theorem
+
+A tree on the leaves `0..L-1` is given as a weighted split system (`SplitSystem L Sg`): a list of
+(branch length ≥ 0, split) whose splits are pairwise compatible — by Buneman's splits-equivalence theorem
+exactly the edge sets of (not necessarily binary) trees; `splitDist Sg x y`, the total length of the branches
+separating `x` and `y`, is the tree's path metric.  Zero lengths and multifurcations are allowed, so the
+statements cover every additive matrix. -/
+
+/-- **`nj_selects_cherry` (Studier & Keppler 1988)**, for the criterion exactly as `get_dist_saved_join_score_matrix`
+forms it (`d[a,b] − (r[a]+r[b])/(L−2)`, halved and shifted by pair-independent terms): on the path metric of a
+tree with `L ≥ 4` leaves, EVERY off-diagonal pair attaining the minimum — whichever one a tie-breaking rule
+picks — is a pair of neighbours: no branch of positive length with ≥ 2 leaves on both sides separates them, and
+the pair is a cherry of the matrix (pendant lengths `ai, aj ≥ 0`, `d i k = ai + e k`, `d j k = aj + e k`). -/
+theorem nj_selects_cherry (L : Nat) (hL : 3 < L) (Sg : WSplits) (hS : SplitSystem L Sg) (d : Mat)
+    (hd : ∀ a b, a < L → b < L → get d a b = splitDist Sg a b) (i j : Nat) (hi : i < L) (hj : j < L) (hij : i ≠ j)
+    (hmin : ∀ x y, x < L → y < L → x ≠ y → qCrit d L i j ≤ qCrit d L x y) :
+    NotSep L Sg i j ∧ ∃ ai aj e, Cherry d L i j ai aj e := by
+  have hns := minQ_notSep L hL Sg hS d hd i j hi hj hmin
+  exact ⟨hns, _, _, _, cherry_of_notSep L Sg hS d hd i j hi hj hij (by omega) hns⟩
+
+/-- the model's selection (`pickPair`: first minimum of the score matrix in flat order) is one such minimiser -/
+theorem nj_pickPair_minimises : MinQ pickPair := pickPair_minQ
+
+/-- the reduced matrix returned by `join` on a selected pair is again the path metric of a tree (the tree with the
+cherry collapsed, re-indexed as the code does) -/
+theorem nj_reduced_is_tree_metric (sel : PT → Nat × Nat) (hsel : MinQ sel) (pt : PT) (hL : 3 < pt.L)
+    (hm : IsSplitMetric pt.L pt.d) :
+    IsSplitMetric (join pt (sel pt).1 (sel pt).2).L (join pt (sel pt).1 (sel pt).2).d :=
+  join_isSplitMetric sel hsel pt hL hm
+
+/-- **`nj_realises_additive` (FULL)**: for EVERY tree with non-negative branch lengths on `n ≥ 3` leaves (any
+shape, any multifurcation, any leaf order) and EVERY selection rule that returns a minimiser of the Q-criterion,
+neighbour joining as coded (`join` with its clamps and row shuffling, the loop down to three nodes, the final
+three-point step) returns a tree in which the path length between any two tips equals the matrix entry and
+whose tips, read left to right, are a permutation of the labels `0..n-1` (each label exactly once).  (By uniqueness of tree realisations this is the generating tree up to
+zero-length edges.) -/
+theorem nj_realises_additive (n : Nat) (hn : 3 ≤ n) (Sg : WSplits) (hS : SplitSystem n Sg)
+    (sel : PT → Nat × Nat) (hsel : MinQ sel) :
+    RootReal (splitDist Sg) (finish (njLoop sel n (star n (tab n (splitDist Sg))))) ∧
+    (rootTips (finish (njLoop sel n (star n (tab n (splitDist Sg)))))).Perm (List.range n) := by
+  have hm := star_isSplitMetric n Sg hS
+  refine ⟨?_, finish_tips_perm n _ (nj_loop_ends_with_three n hn sel _)
+    (njLoop_tipsOnce n sel (fun pt h => let ⟨a, b, c, _⟩ := hsel pt h; ⟨a, b, c⟩) n _ (star_tipsOnce n _))⟩
+  apply (nj_realises_additive_partial (splitDist Sg) n sel (splitDist_symm Sg) (splitDist_self Sg)
+    (minQ_cherries sel hsel _ hm) hn ?_).1
+  have h3 := nj_loop_ends_with_three n hn sel (tab n (splitDist Sg))
+  have := njLoop_isSplitMetric sel hsel n _ hm
+  rw [h3] at this
+  exact isSplitMetric_tri3 _ this
+
+/-- the same for the model of `nj` itself (selection = first minimum, as `gnj(keep=1)`) -/
+theorem nj_model_realises_additive (n : Nat) (hn : 3 ≤ n) (Sg : WSplits) (hS : SplitSystem n Sg) :
+    RootReal (splitDist Sg) (nj n (tab n (splitDist Sg))) ∧
+    (rootTips (nj n (tab n (splitDist Sg)))).Perm (List.range n) := by
+  rw [nj_eq_loop n (by omega)]
+  exact nj_realises_additive n hn Sg hS pickPair pickPair_minQ
+
+/-- the quartet ((0:1,1:2):4,2:2,3:3) as a split system: four pendant branches and the internal branch {0,1}|{2,3} -/
+def exSplits : WSplits :=
+  [(1, fun x => x == 0), (2, fun x => x == 1), (2, fun x => x == 2), (3, fun x => x == 3), (4, fun x => x == 0 || x == 1)]
+
+example : tab 4 (splitDist exSplits) = exQuartet := by decide +kernel
+
+example : SplitSystem 4 exSplits := by
+  constructor
+  · intro S hS
+    simp only [exSplits, List.mem_cons, List.not_mem_nil, or_false] at hS
+    rcases hS with rfl | rfl | rfl | rfl | rfl <;> norm_num
+  · intro S hS T hT
+    simp only [exSplits, List.mem_cons, List.not_mem_nil, or_false] at hS hT
+    have key : ∀ (s t : Side), (∃ a b : Bool, ∀ x, x < 4 → ¬ (s x = a ∧ t x = b)) → Compat 4 s t := fun _ _ h => h
+    rcases hS with rfl | rfl | rfl | rfl | rfl <;> rcases hT with rfl | rfl | rfl | rfl | rfl <;>
+      apply key <;> decide
+
+
+/-! ### generating trees
+
+A generating tree is a rooted binary tree `g : T` (`tip` / `bin l₁ t₁ l₂ t₂`, the type the model itself uses for
+its output) with branch lengths ≥ 0 — a multifurcation is a binary resolution with zero-length edges, a tree
+"with positive branch lengths" is the special case where all lengths are > 0 — whose tips are the labels
+`0..n-1` in ANY order.  `pathMetric g` is its matrix of path lengths. -/
+
+/-- the path metric of a generating tree: total length of the branches separating two tips -/
+def pathMetric (g : T) : Nat → Nat → Rat := splitDist (splitsOf g)
+
+/-- `pathMetric g` is realised by `g`: in every subtree, two tips under different children are at distance
+(depth + branch + branch + depth) — the same predicate `Real` that describes the output of `nj` -/
+theorem pathMetric_is_path_length (g : T) (hnd : g.tips.Nodup) : Real (pathMetric g) g :=
+  splitDist_real g hnd (pathMetric g) (fun _ _ _ _ => rfl)
+
+/-- **NJ returns the generating tree's metric, for every generating tree**: `g` any binary tree with branch
+lengths ≥ 0 whose tips are a permutation of `0..n-1`, `n ≥ 3`; `D` its path-length matrix; `sel` any rule
+returning a minimiser of the Q-criterion (e.g. the model's `pickPair`).  The tree built by the code's NJ from
+`D` has path length `D x y` between any two tips `x, y` and its tips are exactly the labels, each once — so it
+is a tree realisation of the same metric as `g` (the generating tree up to zero-length edges and rooting). -/
+theorem nj_returns_generating_tree (g : T) (n : Nat) (hn : 3 ≤ n) (hnn : NonNegT g)
+    (htips : g.tips.Perm (List.range n)) (sel : PT → Nat × Nat) (hsel : MinQ sel) :
+    Real (pathMetric g) g ∧
+    RootReal (pathMetric g) (finish (njLoop sel n (star n (tab n (pathMetric g))))) ∧
+    (rootTips (finish (njLoop sel n (star n (tab n (pathMetric g)))))).Perm (List.range n) := by
+  have hnd : g.tips.Nodup := (List.Perm.nodup_iff htips).2 List.nodup_range
+  exact ⟨pathMetric_is_path_length g hnd,
+    nj_realises_additive n hn (splitsOf g) (splitsOf_system g n hnn hnd) sel hsel⟩
+
+/-- caterpillar (((0:1,1:2):4,2:2):1,3:2) with its tips listed in the order 0,1,2,3 -/
+def exTree : T := .bin 1 (.bin 4 (.bin 1 (.tip 0) 2 (.tip 1)) 2 (.tip 2)) 2 (.tip 3)
+
+example : NonNegT exTree ∧ exTree.tips.Perm (List.range 4) := by
+  refine ⟨by unfold exTree NonNegT NonNegT NonNegT NonNegT; norm_num, by decide⟩
+example : tab 4 (pathMetric exTree) = exQuartet := by decide +kernel
+example : nj 4 (tab 4 (pathMetric exTree)) = [(4, .bin 1 (.tip 0) 2 (.tip 1)), (3, .tip 3), (2, .tip 2)] := by
+  decide +kernel
 
 end CogentModel.C15
